@@ -116,19 +116,26 @@ func c02Locs(e gqlerrors.FormattedError) [][2]int {
 // locate checks clause "located at the offending node" (C02) / C18(b): every reported error has at
 // least one location that is the start of an offending node (or of a part / the whole of it).
 // Returns "" or a description.
-func c02Locate(o c02Observed, ids []string, at map[[2]int][]string) string {
+func c02Locate(o c02Observed, ids []string, at map[[2]int][]string, strict bool) string {
 	for i, locs := range o.Locs {
 		if len(locs) == 0 {
 			return "error without location: " + o.Msgs[i]
 		}
 		ok := false
 		for _, lc := range locs {
+			here := false
 			for _, k := range at[lc] {
 				for _, id := range ids {
 					if relatedKey(k, id) {
-						ok = true
+						here = true
 					}
 				}
+			}
+			if here {
+				ok = true
+			} else if strict {
+				// every location an error carries points at a node the rule's verdict names
+				return fmt.Sprintf("location %v of the error %q is not the start of an offending node %v", lc, o.Msgs[i], ids)
 			}
 		}
 		if !ok {
@@ -137,6 +144,10 @@ func c02Locate(o c02Observed, ids []string, at map[[2]int][]string) string {
 	}
 	return ""
 }
+
+// rules whose verdict names EVERY node an error may point at (the spreads that form a cycle): all locations of an
+// error are checked, not only one.  (Other rules legitimately add the operation, the variable definition ...)
+var c02StrictLocations = map[string]bool{"NoFragmentCycles": true}
 
 // sampleValue builds a type-conformant JSON-like value for a variable of type t (a builder, not
 // semantics: the document is valid, so the type is a known input type).
@@ -343,7 +354,7 @@ func replayC02(raw []byte, st *Stats, wk *worker, lays []abs.VLayout, c18 bool) 
 			}
 			if (o.N > 0) == (len(ids) > 0) {
 				if o.N > 0 {
-					if why := c02Locate(o, ids, at); why != "" {
+					if why := c02Locate(o, ids, at, c02StrictLocations[r.Name]); why != "" {
 						report("rule "+r.Name+": location: "+why, map[string]interface{}{"errors": o.Msgs, "locations": o.Locs})
 						return
 					}
@@ -355,7 +366,7 @@ func replayC02(raw []byte, st *Stats, wk *worker, lays []abs.VLayout, c18 bool) 
 			// disagreement: explained by a listed deviation?
 			explained := ""
 			for _, d := range devOf[r.Name] {
-				if devsListed([]string{d.D}) && (o.N > 0) == (len(d.Ids) > 0) && (o.N == 0 || c02Locate(o, d.Ids, at) == "") {
+				if devsListed([]string{d.D}) && (o.N > 0) == (len(d.Ids) > 0) && (o.N == 0 || c02Locate(o, d.Ids, at, c02StrictLocations[r.Name]) == "") {
 					explained = d.D
 					break
 				}
